@@ -1,29 +1,13 @@
 package probe
 import ("testing";"fmt";"github.com/luthersystems/elps/verifharness/vcommon")
-func run(cfg vcommon.Cfg, src string) (vcommon.Outcome, int, int, *vcommon.Rt) {
-    rt := vcommon.NewRuntime(cfg)
-    o := rt.Load(src)
-    mh, mn := 0,0
-    for _, e := range rt.Trace { if e.Height>mh {mh=e.Height}; if e.Nesting>mn {mn=e.Nesting} }
-    return o, mh, mn, rt
-}
 func TestP(t *testing.T){
-  src := `(defun f (n) (if (<= (probe 'h n) 0) 0 (+ 1 (f (- n 1))))) (f 10)`
-  o, mh, mn, _ := run(vcommon.Cfg{MaxSteps:1<<40, NoStdlib:true}, src)
-  fmt.Println("unl", o.Key(), mh, mn, o.Steps)
-  for _, h := range []int{mh-1, mh, mh+1} { o,_,_,_ := run(vcommon.Cfg{MaxSteps:1<<40, NoStdlib:true, MaxPhysical:h}, src); fmt.Println("H",h,o.Key(),o.Msg) }
-  for _, e := range []int{mn-1, mn, mn+1, mn+2} { o,_,_,_ := run(vcommon.Cfg{MaxSteps:1<<40, NoStdlib:true, MaxNesting:e}, src); fmt.Println("E",e,o.Key(),o.Msg) }
-  tl := `(defun g (n acc) (if (<= n 0) acc (g (- n 1) (+ acc 1)))) (g 10 0)`
-  for _, ti := range []int{8,9,10,11} { o,_,_,_ := run(vcommon.Cfg{MaxSteps:1<<40, NoStdlib:true, MaxTailIter:ti}, tl); fmt.Println("T",ti,o.Key(),o.Msg) }
-  mc := `(defmacro m (n) (if (<= n 0) 42 (list 'm (- n 1)))) (m 5)`
-  for _, md := range []int{4,5,6,7} { o,_,_,_ := run(vcommon.Cfg{MaxSteps:1<<40, NoStdlib:true, MaxMacroDepth:md}, mc); fmt.Println("M",md,o.Key(),o.Msg) }
-  // catchable
-  o,_,_,rt := run(vcommon.Cfg{MaxSteps:1<<40, NoStdlib:true, MaxPhysical:10}, `(defun f (n) (if (<= n 0) 0 (+ 1 (f (- n 1))))) (handler-bind ((condition (lambda (c &rest d) 'caught))) (f 50))`)
-  fmt.Println("catch", o.Key(), o.Msg, len(rt.Env.Runtime.Stack.Frames))
-  o,_,_,rt = run(vcommon.Cfg{MaxSteps:1<<40, NoStdlib:true, MaxNesting:20}, `(defun f (n) (if (<= n 0) 0 (+ 1 (f (- n 1))))) (handler-bind ((condition (lambda (c &rest d) 'caught))) (f 50))`)
-  fmt.Println("catchN", o.Key(), o.Msg, len(rt.Env.Runtime.Stack.Frames))
-  // steps after trip
-  o,_,_,rt = run(vcommon.Cfg{MaxSteps:20, NoStdlib:true}, `(defun f (n) (if (<= n 0) 0 (+ 1 (f (- n 1))))) (probe 1 (f 50))`)
-  fmt.Println("trip", o.Key(), rt.Env.Runtime.Steps(), rt.Env.Runtime.TotalSteps())
-  o2 := rt.Load("(probe 2 (+ 1 2))"); fmt.Println("next", o2.Key(), rt.Env.Runtime.Steps(), rt.Trace)
+  src := "(set 'cnt 0)\n(defun g (k) (set 'cnt (+ cnt 1)) (if (= k 0) 0 (f 3)))\n(defun f (n) (g 0) (if (= n 0) 'done (f (- n 1))))\n(g 1)\ncnt"
+  src2 := "(defun f (n) (probe 'inner (f2 n)) (if (<= n 0) 'done (f (- n 1))))\n(defun f2 (n) n)\n(defun h (n) (probe 'x n) (if (<= n 0) 0 (+ 1 (h 0))) (if (<= n 0) 'd (h (- n 1))))\n(list (f 2) (h 2))"
+  for _, dbg := range []bool{false,true} {
+    for _, s := range []string{src, src2} {
+    rt := vcommon.NewRuntime(vcommon.Cfg{NoStdlib:true, Debugger:dbg, MaxSteps: 100000})
+    o := rt.Load(s)
+    fmt.Println("debugger", dbg, "=>", o.Key(), o.Msg, vcommon.TraceString(rt.Trace))
+    }
+  }
 }
